@@ -2,6 +2,7 @@ package main
 
 import (
 	"bytes"
+	"sync"
 	"crypto/sha256"
 	"encoding/hex"
 	"encoding/json"
@@ -350,7 +351,7 @@ func resultViols(r *fwproto.Result) []fwproto.Viol {
 	var vs []fwproto.Viol
 	if r.Died != "" && r.DiedFn != "watchdog" {
 		inv := "C03.fatal"
-		if r.DiedFn == "hang" {
+		if strings.HasPrefix(r.DiedFn, "hang|") {
 			inv = "C03.hang"
 		}
 		vs = append(vs, fwproto.Viol{Inv: inv, Sig: r.DiedFn, Detail: r.Died})
@@ -416,16 +417,37 @@ func checkSrcsim(prop, tier string) int {
 
 	// stage 2 of the watchdog: candidates are re-run alone under a CPU-time limit
 	unconfirmed := 0
-	for i := range results {
-		if results[i].DiedFn == "watchdog" {
-			r2 := pool.RunIsolated(&plan.jobs[i], 120)
-			if r2.Died == "" {
-				unconfirmed++
-				results[i] = r2
-			} else {
-				results[i] = r2
+	{
+		var cands []int
+		for i := range results {
+			if results[i].DiedFn == "watchdog" {
+				cands = append(cands, i)
 			}
 		}
+		// at most 48 candidates are confirmed (a defect that hangs shows up in far fewer distinct ways); the rest
+		// stays "watchdog" and is listed in the evidence, never reported
+		if len(cands) > 48 {
+			cands = cands[:48]
+		}
+		var wg sync.WaitGroup
+		var mu sync.Mutex
+		sem := make(chan struct{}, max(nWorkers/2, 1))
+		for _, i := range cands {
+			wg.Add(1)
+			go func(i int) {
+				defer wg.Done()
+				sem <- struct{}{}
+				defer func() { <-sem }()
+				r2 := pool.RunIsolated(&plan.jobs[i], 120)
+				mu.Lock()
+				if r2.Died == "" {
+					unconfirmed++
+				}
+				results[i] = r2
+				mu.Unlock()
+			}(i)
+		}
+		wg.Wait()
 	}
 
 	// aggregate
